@@ -38,6 +38,8 @@ Step(ev) ==
                     [] ev.fn = "sx" -> ev.rs[i] = SignExtend(ev.vs[i], ev.n),
                 "helper " \o ev.name \o ": result differs from the definition")
          /\ UNCHANGED host
+    [] ev.e = "wrapthrew" ->   \* the native operator has a result for these operands, so the wrapper may not throw
+         Bad("wrapper operator threw where the native operator has a defined result") /\ UNCHANGED host
     [] OTHER -> Bad("no specification action for event " \o ev.e) /\ UNCHANGED host
 Next == l <= Len(Tr) /\ l' = l + 1 /\ Step(Tr[l])
 Spec == Init /\ [][Next]_<<l, host>>
